@@ -321,6 +321,9 @@ pub fn crop1_alphabet(n: u32) -> Vec<Crop1> {
     push(nf * (1.0 - f64::EPSILON), nf * f64::EPSILON);
     push(0.0, e20);
     push((n / 2) as f64, 0.37);
+    // integer origin, fractional size: truncating the size gives an integer destination size
+    push(0.0, nf - 0.5);
+    push(1.0, nf - 1.5);
     v
 }
 
@@ -328,7 +331,7 @@ pub fn crop1_alphabet(n: u32) -> Vec<Crop1> {
 pub fn crop1_small(n: u32) -> Vec<Crop1> {
     let a = crop1_alphabet(n);
     let nf = n as f64;
-    let want: Vec<(f64, f64)> = vec![(0.0, nf), (1.0, nf - 1.0), (0.25, nf - 0.5), (nf - 0.5, 0.5), (0.3, nf - 0.6)];
+    let want: Vec<(f64, f64)> = vec![(0.0, nf), (1.0, nf - 1.0), (0.25, nf - 0.5), (nf - 0.5, 0.5), (0.3, nf - 0.6), (0.0, nf - 0.5)];
     a.into_iter().filter(|c| want.iter().any(|w| w.0 == c.start && w.1 == c.len)).collect()
 }
 
